@@ -20,7 +20,7 @@ RULE = ('exhaustive: every dependency structure over n=3 references (125; quick)
         'distinct = (structure, layout, files); non-trivial = at least one reference waits for another')
 REQUIRED = {'loads': 300, 'unresolvable_reported': 30, 'success_with_postponement': 30, 'two_file_loads': 30,
             'list_valued_layouts': 30, 'max_rounds_seen': 2,
-            'provider_decisions_through_needs_to_be_resolved': 300}
+            'provider_decisions_through_needs_to_be_resolved': 300, 'decisions_about_a_list_attribute': 100}
 ASSUMPTIONS = ['liveness is restated as bounded progress: no reference is asked more than n+2 times; a watchdog firing is inconclusive']
 
 GRAMMAR = '''
@@ -172,10 +172,13 @@ def one(ctx, struct, kind, order, split, rep, sample=False, api_wait=False):
                     uname = owners[j][0]
                     for mm_ in models_of(m):
                         for u in getattr(mm_, 'uses', []):
-                            if u.name == uname and needs_to_be_resolved(u, 'one'):
+                            # (for a list attribute the question is about the whole list: any element still pending)
+                            if u.name == uname and needs_to_be_resolved(u, owners[j][1]):
                                 waiting = True
                 ctx.count('provider_decisions_through_needs_to_be_resolved')
-                if not waiting and not (w <= resolved):
+                if any(owners[j][1] == 'many' for j in w):
+                    ctx.count('decisions_about_a_list_attribute')
+                if not waiting and not (eff(w) <= resolved):
                     # (the converse is legitimate: a reference resolved earlier in the SAME step still counts as pending)
                     live_problem.append(sorted(w - resolved)[0])
                 if waiting:
@@ -206,9 +209,13 @@ def one(ctx, struct, kind, order, split, rep, sample=False, api_wait=False):
                     out.append(x)
         return out
 
+    def eff(w):
+        """waiting through needs_to_be_resolved means waiting for every reference of the attribute asked about"""
+        return {k for k in range(n) for j in w if owners[k][:2] == owners[j][:2]}
+
     mm = metamodel_from_str(GRAMMAR)
     mm.register_scope_providers({'*.*': Sched()})
-    exp_ok = lfp(struct)
+    exp_ok = lfp(tuple(w if w == 'never' else frozenset(eff(w)) for w in struct) if api_wait else struct)
     outcome = None
     try:
         try:
@@ -312,7 +319,7 @@ def run_exh(ctx, n, idx, struct, allvariants):
         for v in range(24):
             kind, order, split = variants(v, n)
             one(ctx, struct, kind, order, split, {'phase': 'exh', 'n': n, 'idx': idx, 'v': v}, sample=(idx % 41 == 3 and v == 7))
-            if kind == 'single':
+            if kind == 'single' or v % 2:
                 one(ctx, struct, kind, order, split, {'phase': 'exh', 'n': n, 'idx': idx, 'v': v, 'api': True}, api_wait=True)
     else:
         kind, order, split = variants(idx, n)
@@ -333,7 +340,7 @@ def run_rand(ctx, i):
     r.shuffle(order)
     kind = r.choice(['single', 'list', 'mixed'])
     split = None if r.random() < 0.5 else set(j for j in range(n) if r.random() < 0.5)
-    one(ctx, tuple(struct), kind, tuple(order), split, {'phase': 'rand', 'i': i}, sample=(i < 2), api_wait=(kind == 'single' and i % 2 == 0))
+    one(ctx, tuple(struct), kind, tuple(order), split, {'phase': 'rand', 'i': i}, sample=(i < 2), api_wait=(i % 2 == 0))
 
 
 def run(ctx):
